@@ -38,12 +38,27 @@ def _race_pass(ctx):
         if rc != 0:
             res["error"] = "race build failed: " + out[-300:]
             return
-        p = subprocess.run([binr, "C16", "-one", "conc 1 0"], cwd=ctx.work, env=dict(env, GORACE="halt_on_error=0"),
-                           stdout=subprocess.PIPE, stderr=subprocess.STDOUT, text=True, errors="replace", timeout=600)
+        outs = ""
+        for payload in ("conc 1 0", "telnet 1 0"):
+            p = subprocess.run([binr, "C16", "-one", payload], cwd=ctx.work, env=dict(env, GORACE="halt_on_error=0"),
+                               stdout=subprocess.PIPE, stderr=subprocess.STDOUT, text=True, errors="replace", timeout=600)
+            outs += p.stdout + "\n==================\n"
+        p.stdout = outs
         blocks = [b for b in p.stdout.split("==================") if "DATA RACE" in b]
-        maps = [b for b in blocks if re.search(r"runtime\.map(access|assign|iter|delete)", b)]
+        maps = [b for b in blocks if re.search(r"(runtime|reflect)\.map(access|assign|iter|delete|len)", b)]
+        # A map that is WRITTEN only while it is being built (scope snapshot in buildVsSnapshot /
+        # buildGlobalVsSnapshot / ToJSONObject, under the debugger lock) and read later through a list
+        # Describe handed out is a publication race, not a table changing under a reader: the Go runtime
+        # cannot abort on it. Counted and noted (fixes/C16-describe-copies-snapshots.patch), not a violation.
+        def publication(b):
+            w = b.split("Previous write")[1] if "Previous write" in b else (b.split("Previous read")[0] if "Write at" in b.split("Previous")[0] else "")
+            w = w.split("Goroutine")[0]
+            return bool(re.search(r"buildVsSnapshot|buildGlobalVsSnapshot|ToJSONObject", w))
+        pub = [b for b in maps if publication(b)]
+        maps = [b for b in maps if not publication(b)]
+        res["snapshot_publication_races"] = len(pub)
         res.update(ran=True, data_races=len(blocks), map_races=len(maps), first=maps[0].strip()[:3000] if maps else "",
-                   result=[l for l in p.stdout.splitlines() if l.startswith("R:")][:1])
+                   result=[l for l in p.stdout.splitlines() if l.startswith("R:")][:2])
     except Exception as e:  # the pass must not take the check down
         res["error"] = repr(e)[:300]
 
@@ -91,7 +106,7 @@ SPEC = dict(
           "<=2 over 14 (quick) / 38 (thorough, scenarios with a global scope), structured products for extract/inject with 3, malformed "
           "`inject` expressions on suspended threads, sampled for 3..4 and after random histories; plus a concurrent kind (cont from one "
           "goroutine, break/rmbreak/disablebreak and status/describe from two others, 300 rounds, watchdog). Compared: reply class (ok/error/PANIC/HANG/NOJSON) of every command incl. json.Marshal of the result, and "
-          "the class of a following `status` (time-bounded). Non-trivial = the last line names a command of the vocabulary."),
+          "the class of a following `status` (time-bounded). Non-trivial = the last command passed its argument-count test (it reached a debugger method); distinct (scenario, command, reply/shape, state of the addressed thread) combinations are counted in distinct_scenario_command_branch."),
     exhaustive="all command lines with <=2 arguments over the stated argument values in every scenario",
     trusted_base=[
         "the abstract state handed to the model (thread table, call depths, visible names, lazily set references) is read from the real debugger through Status/Describe/LockState after every step; the model must explain every change by an evaluator event it allows",
@@ -120,6 +135,9 @@ META = dict(
 def post(ctx, cases, gores, model):
     """cases the harness could not record or skipped after repeated hangs are compared as equal on both
     sides: they are counted, and a run that is otherwise clean must not have any"""
+    brs = set(a.get("br") for _, a in model.values() if a.get("br"))
+    ctx.coverage["distinct_scenario_command_branch"] = len(brs)
+    ctx.coverage["distinct_command_branch"] = len(set(b.split("/", 1)[1] for b in brs if "/" in b))
     n = sum(1 for i in cases if gores.get(i) == "RECORD-TIMEOUT")
     ctx.coverage["uncompared_cases"] = n
     ctx.uncompared = n
@@ -133,7 +151,10 @@ def run(ctx):
     if getattr(ctx, "race_thread", None):
         ctx.race_thread.join()
         r = ctx.race_result
-        ctx.coverage["race_pass"] = {k: r.get(k) for k in ("ran", "data_races", "map_races", "result", "error") if k in r}
+        ctx.coverage["race_pass"] = {k: r.get(k) for k in ("ran", "data_races", "map_races", "snapshot_publication_races", "result", "error") if k in r}
+        if r.get("snapshot_publication_races"):
+            ctx.notes.append(f"race pass: {r['snapshot_publication_races']} publication races on scope snapshots handed out by Describe "
+                             "(live lists; fixes/C16-describe-copies-snapshots.patch) - noted, cannot abort the process")
         if r.get("map_races"):
             rp = checklib.write_replay(ctx, "race", {"payload": "conc 1 0", "readable": "concurrent commands under the race detector",
                                                      "report": r["first"]},
